@@ -374,6 +374,10 @@ def run(ctx):
                 known = set(M.classes) | set(sing) | set(M.functions) | {"this", "len_", "obj_", "list_", "Pass"}
                 ok = bool(cand) and all(match_ellipsis(doc, t, {}, known) for t in cand)
                 ctx.ob("C12.R2", fi, ok, "macro law `%s`: the macro returns %s" % (text, " / ".join(N.show(t) for t in cand)), key=key, loc=loc)
+                # ... and returns it as constructed: the only attributes a law macro may set on the result are emitter hooks (_emit*), which
+                # do not take part in parse / build / sizeof, and the size probe _actualsize (checked against the expansion by C16.R6, shared as R6); any other patched attribute (a flag, a member) makes the two sides differ
+                patched = sorted({e["attr"] for p in paths_of(ctx, fi) for e in p.events if e.kind == "ATTRSET" and e["base"][0] == "ctor" and not str(e["attr"]).startswith("_emit") and e["attr"] != "_actualsize"})
+                ctx.ob("C12.R2", fi, not patched, "macro law `%s`: the construct is returned as constructed (attributes set afterwards: %s)" % (text, patched or "only emitter hooks"), key=key + " unpatched", loc=loc)
                 continue
             # ---- BytesInteger / BitsInteger laws
             if lhs.startswith(("BytesInteger(", "BitsInteger(")) and ("Bitwise(" in sides[1] or "Bytewise(" in sides[1]):
